@@ -1351,6 +1351,35 @@ func (dsc *dataStoreCommand) lpop(keyName string, count int) (values [][]byte, e
 	return
 }
 
+// pops one element from the first of the named lists that has one (BLPOP/BRPOP attempt)
+func (dsc *dataStoreCommand) popFirstOf(keyNames []string, left bool) (keyName string, value []byte, err *respErrorString) {
+	dsc.lock()
+	defer dsc.unlock()
+
+	for _, name := range keyNames {
+		list, listErr := dsc.getListUnlocked(name)
+		if listErr != nil {
+			err = listErr
+			return
+		}
+		if list == nil || list.count == 0 {
+			continue
+		}
+		keyName = name
+		if left {
+			item := list.head
+			value = item.element
+			dsc.lpopUnlocked(name, list, item)
+		} else {
+			item := list.tail
+			value = item.element
+			dsc.rpopUnlocked(name, list, item)
+		}
+		return
+	}
+	return
+}
+
 func (dsc *dataStoreCommand) rpushUnlocked(keyName string, list *storeList, element []byte) {
 	item := listItem{
 		prev:    list.tail,
